@@ -17,6 +17,7 @@ that the parser thread reads directly through the fd is covered by the monitors 
 import Osmium.Lemmas.PipelineBase
 import Osmium.Lemmas.PipelineComplete
 import Osmium.Lemmas.PipelineLive
+import Osmium.Lemmas.PipelineRank
 
 namespace Osmium.C07
 
@@ -41,22 +42,22 @@ theorem header_failure_means_no_data (c : Cfg α) (s : State α) (h : (P c).Reac
     s.hdr ≠ some none → NoBuf s :=
   hdr_exc_no_data c s h
 
-/-- `first_error_reported`, `_partial`.  PROVED: (1) once the end-of-data marker has been returned
-    the status is not okay (no later read delivers anything); (2) the end marker is only returned
-    when something was wanted; (3) IF (hz) every raised exception is on its way in a thread or in
-    a future handed to one of the queues, and (hg) no such exception is around when the end marker
-    is returned, THEN no stage has failed — i.e. a failure is never swallowed: the caller gets the
-    exception (the future with the exception precedes the end marker in both queues and read()
-    stops at it) or stops reading.  MISSING: hz is proved except for two `pushEnter` cases of the
-    input queue (a rewriting problem), hg needs the FIFO + "exception before end marker" shape
-    invariant of both queues.  The fault grid of tools/props/c07.py checks on every run that the
-    injected exception is the first one reported, by the expected call. -/
-theorem first_error_reported_partial (c : Cfg α) (wf : c.WF) (s : State α) (h : (P c).Reachable s)
-    (hd : s.sawEod = true)
-    (hz : s.faulted = true → Complete.EvR s ∨ Complete.EvP s)
-    (hg : s.sawEod = true → ¬ Complete.EvR s ∧ ¬ Complete.EvP s) :
-    s.faulted = false ∧ s.status ≠ .okay ∧ c.nothing = false :=
-  ⟨eod_means_no_fault_partial c wf s h hd hz hg, (after_eod c wf s h hd).1, eod_means_something_wanted c s h hd⟩
+/-- `first_error_reported`: the end-of-data marker reaches the caller ONLY IF no stage has raised
+    an exception (decompressor read or close, parser, blob decode in a worker or inline) — a
+    failure is never swallowed: the future with the exception precedes the end marker in both
+    queues (an exception future is followed directly by the end marker, which is the last thing
+    each producer pushes), read() stops at it, closes the Reader and rethrows it; so a caller
+    that keeps reading gets the exception of the FIRST failing stage in pipeline order, never a
+    clean end.  After the end marker the status is never okay again. -/
+theorem first_error_reported (c : Cfg α) (wf : c.WF) (s : State α) (h : (P c).Reachable s)
+    (hd : s.sawEod = true) : s.faulted = false ∧ s.status ≠ .okay ∧ c.nothing = false :=
+  ⟨eod_means_no_fault c wf s h hd, (after_eod c wf s h hd).1, eod_means_something_wanted c s h hd⟩
+
+/-- … and every raised exception is on its way to the caller: in the hands of the read thread or
+    the parser thread, or in a future handed to push() on one of the two queues. -/
+theorem fault_is_on_its_way (c : Cfg α) (s : State α) (h : (P c).Reachable s) (hf : s.faulted = true) :
+    InExc s ∨ Complete.EvP s :=
+  (Complete.invZ c s h).z hf
 
 /-- `no_data_after_error`: once an error has been reported (status error) there are no back
     buffers, no step delivers anything, every read() throws io_error, and the status stays error
@@ -135,6 +136,29 @@ theorem no_stuck_state_partial (c : Cfg α) (wf : c.WF) (s : State α) (h : (P c
     (h1 : s.cpc ≠ .idle) (h2 : s.cpc ≠ .dead) :
     ∃ e s', e.isCall = false ∧ (P c).Step s e s' :=
   Pipeline.no_stuck_state_partial c wf s h hd hty i1 i2 i4 i5 h1 h2
+
+/-- `bounded_progress`: a ranking function.  Every internal step of the pipeline that is not a
+    busy-wait iteration (`isStutter`: a bounded push that sees a full queue, its timed wait, a
+    spurious wake-up that finds the predicate false) STRICTLY decreases the natural number
+    `rank c s`; busy-wait iterations leave it unchanged; an API call of the client raises it by at
+    most 10.  Hence between two API calls every run makes at most `rank` many steps that are not
+    busy-wait iterations; with `no_stuck_state` every API call returns and the destructor joins
+    all threads, PROVIDED busy waits end — they end when the other side moves, which is what the
+    fairness of the OS scheduler and the 10 ms timed wait (assumptions, see the header) give. -/
+theorem bounded_progress (c : Cfg α) (s s' : State α) (e : Ev α) (h : (P c).Reachable s)
+    (hst : (P c).Step s e s') :
+    (e.isCall = false → isStutter c s e = false → rank c s' < rank c s) ∧
+    (isStutter c s e = true → rank c s' = rank c s) ∧
+    (e.isCall = true → rank c s' ≤ rank c s + 10) :=
+  ⟨fun hc hs => rank_decreases c s s' e h hst hc hs, fun hs => rank_stutter c s s' e h hst hs,
+   fun hc => rank_call c s s' e hst hc⟩
+
+/-- along any run without API-call events the number of steps that are not busy-wait iterations
+    is bounded by the rank of its first state -/
+theorem internal_work_bounded (c : Cfg α) (tr : List (Ev α)) (s s' : State α) (h : (P c).Reachable s)
+    (hc : ∀ e ∈ tr, e.isCall = false) (hr : (P c).run? s tr 0 = .ok s') :
+    (tr.filter fun e => !isStutter c s e).length + rank c s' ≤ rank c s :=
+  internal_steps_bounded c tr s s' 0 h hc hr
 
 /-! ## non-vacuity: a run with a fault, evaluated by the kernel -/
 
